@@ -34,6 +34,7 @@ type Op struct {
 	Path string            `json:"path,omitempty"`
 	D    int               `json:"d,omitempty"` // seconds (adv) or generic integer argument
 	F    int               `json:"f,omitempty"` // filter index
+	R    int               `json:"r,omitempty"` // replica index (worlds with several replicas)
 	S    string            `json:"s,omitempty"` // generic string argument
 	Args map[string]string `json:"args,omitempty"`
 	Par  []Op              `json:"par,omitempty"` // concurrent tasks
